@@ -214,3 +214,9 @@ META = dict(
     explanation='files are rendered from a layout with symbolic content and read by the real parsers executed symbolically',
     required_outcomes=['json settings read back', 'empty json list', 'pbn file read back'],
 )
+
+
+def validate(tier):
+    """translator validation: the interpreter in concrete mode against CPython on the functions this check encodes"""
+    from engine import validate as v
+    return v.run(['pbn_files', 'regex_model'], tier)
